@@ -629,3 +629,115 @@ def schedule_check(I, scope, outcome):
     given = I.entry_scope.lookup('env')
     p.oblige(f'{L}::post::C04-environment-handed-over-and-returned', (env is given if isinstance(given, SObj) else isinstance(env, SObj)) and outcome[1] is env,
              kind='post', meta={'expr': 'the environment given by the caller (or a new one) goes to the backend and is returned'})
+
+
+
+# ---------------------------------------------------------------------------------------
+# Scheduler.__init__: works on COPIES of the caller's graphs; every node of the full graph is a node of the hard graph (trace contract)
+class AbstractGraph(ClassModel):
+    """DepGraph as an abstract value: only the calls made on it are recorded (its operations are under contract in C16)"""
+    name = 'AbsGraph'
+    fields = {}
+
+    def _new(self, I, how, *src):
+        return I.alloc('AbsGraph', {'how': how, 'src': tuple(src), 'caller_owned': False})
+
+    def m_copy(self, I, g):
+        ev(I, 'copy', g)
+        return self._new(I, 'copy', g)
+
+    def m_flatten(self, I, g):
+        ev(I, 'flatten', g)
+        return g
+
+    def m___add__(self, I, g, other):
+        ev(I, 'add', g, other)
+        return self._new(I, 'sum', g, other)
+
+    def m_nodes(self, I, g):
+        ev(I, 'nodes', g)
+        return I.node_list
+
+    def m_add_node(self, I, g, node):
+        ev(I, 'add_node', g, node)
+        return g
+
+
+def make_init_world():
+    w = sw.make_world()
+    w.class_models['AbsGraph'] = AbstractGraph(w)
+    w.class_models['Scheduler'] = SchedulerModel(w)
+    w.class_models['Backend'] = Backend(w)
+    w.class_models['Node'] = type('Node', (ClassModel,), {'name': 'Node', 'fields': {}, 'p_do': lambda self, I, n: I.alloc('Callable', {})})(w)
+    w.class_models['Callable'] = type('Callable', (ClassModel,), {'name': 'Callable', 'fields': {}})(w)
+    w.globals['DepGraph'] = SClass('DepGraph')
+    w.construct_hooks['DepGraph'] = lambda I, args, kwargs: w.class_models['AbsGraph']._new(I, 'empty')
+    w.globals['QueueScheduling'] = SClass('QueueScheduling')
+    w.construct_hooks['QueueScheduling'] = lambda I, args, kwargs: I.alloc('Backend', {})
+    w.exc_parents['SchedulerError'] = 'Exception'
+    w.globals['SchedulerError'] = SClass('SchedulerError')
+
+    def isinstance_hook(I, x, cls):
+        names = [c.name for c in (cls if isinstance(cls, tuple) else (cls,)) if isinstance(c, SClass)]
+        if isinstance(x, SObj) and x.cls == 'AbsGraph':
+            return 'DepGraph' in names
+        if x is None:
+            return 'NoneType' in names or any(n == 'type(None)' for n in names)
+        return NotImplemented
+    w.isinstance_hook = isinstance_hook
+    def b_type(I, x):
+        if x is None:
+            return SClass('NoneType')
+        raise Undecided('type() of this value')
+    w.globals['type'] = b_type
+    w.globals['hasattr'] = lambda I, o, name: True      # every node has a callable do(): the other branch raises SchedulerError (documented)
+    return w
+
+
+def init_contract(soft_given):
+    return Contract(SCHF, 'Scheduler.__init__', params={'backend': 'None'}, signals={}, variant='soft-graph-given' if soft_given else 'soft-graph-omitted')
+
+
+def init_setup(soft_given):
+    def setup(I, scope):
+        I.trace = []
+        G = I.world.class_models['AbsGraph']
+        I.hard0 = G._new(I, 'caller-hard')
+        I.setfield(I.hard0, 'caller_owned', True)
+        I.soft0 = None
+        if soft_given:
+            I.soft0 = G._new(I, 'caller-soft')
+            I.setfield(I.soft0, 'caller_owned', True)
+        I.node_list = [I.alloc('Node', {}) for _ in range(2)]
+        scope.set('self', I.alloc('Scheduler', {}))
+        scope.set('hard_graph', I.hard0)
+        scope.set('soft_graph', I.soft0)
+    return setup
+
+
+def init_check(I, scope, outcome):
+    p = I.path
+    me = scope.lookup('self')
+    variant = 'soft-graph-given' if I.soft0 is not None else 'soft-graph-omitted'
+    L = f'{SCHF}::Scheduler.__init__[{variant}]'
+    if outcome[0] != 'return':
+        return
+    mutating = [e for e in I.trace if e[0] in ('flatten', 'add_node')]
+    p.oblige(f'{L}::post::C02-the-graphs-of-the-caller-are-not-modified', all(not I.getfield(e[1], 'caller_owned') for e in mutating), kind='post',
+             meta={'expr': 'flatten / add_node are applied to copies only'})
+    hg, fg = I.getfield(me, 'hard_graph'), I.getfield(me, 'full_graph')
+    ok = isinstance(hg, SObj) and isinstance(fg, SObj) and hg.cls == 'AbsGraph' and fg.cls == 'AbsGraph'
+    ok_h = ok and I.getfield(hg, 'how') == 'copy' and I.getfield(hg, 'src')[0] is I.hard0 and any(e[0] == 'flatten' and e[1] is hg for e in I.trace)
+    p.oblige(f'{L}::post::C02-the-hard-graph-is-a-flattened-copy-of-the-given-one', ok_h, kind='post', meta={'expr': 'self.hard_graph = hard_graph.copy(); flatten()'})
+    ok_f = ok and I.getfield(fg, 'how') == 'sum' and any(e[0] == 'flatten' and e[1] is fg for e in I.trace)
+    if ok_f:
+        a, b = I.getfield(fg, 'src')
+        ok_f = (a is I.hard0 or (isinstance(a, SObj) and I.getfield(a, 'how') == 'copy' and I.getfield(a, 'src')[0] is I.hard0))
+        if I.soft0 is not None:
+            ok_f = ok_f and isinstance(b, SObj) and (b is I.soft0 or (I.getfield(b, 'how') == 'copy' and I.getfield(b, 'src')[0] is I.soft0))
+        else:
+            ok_f = ok_f and isinstance(b, SObj) and I.getfield(b, 'how') == 'empty'
+    p.oblige(f'{L}::post::C02-the-full-graph-is-the-flattened-sum-of-the-hard-and-soft-graphs', ok_f, kind='post', meta={'expr': 'self.full_graph = hard_graph + soft_graph; flatten()'})
+    added = [e[2] for e in I.trace if e[0] == 'add_node' and e[1] is hg]
+    p.oblige(f'{L}::post::C02-every-node-of-the-full-graph-is-a-node-of-the-hard-graph', ok and all(any(a is n for a in added) for n in I.node_list), kind='post',
+             meta={'expr': 'for node in full_graph.nodes(): hard_graph.add_node(node)'})
